@@ -37,10 +37,10 @@ CHECK = {
             "horizontally / 10 km vertically incl. zero, axis points (d,0,0),(0,d,0),(0,0,d), the 100 km / 10 km limits and "
             "sub-millimetre points; distinct = 64-bit hash of the operation sequence with all its numeric arguments; "
             "non-trivial = history with >=1 reset or re-anchoring of an anchored converter and >=3 conversions",
-    "level_text": "exploration: 3e3 (quick) / 5e5 (thorough) generated operation histories are executed on the real ENUConverter "
+    "level_text": "exploration: 2e4 (quick) / 1e6 (thorough) generated operation histories are executed on the real ENUConverter "
                   "in lock step with a sequential model; after every operation isAnchored() is compared with the model, after every "
                   "(re-)anchoring the frame transform is compared with long-double east/north/up directions obtained by numerical "
-                  "differentiation of the geodetic->ECEF definition (orthonormality and det=+1 to 8 eps), every conversion is compared "
+                  "differentiation of the geodetic->ECEF definition (orthonormality and det=+1 to 16 eps, axes to 1e-9 rad), every conversion is compared "
                   "with the model frame, with its inverse conversions (1 mm) and with a fresh converter anchored at the same place "
                   "(1e-9 m), distances of point pairs are compared across frames; ASan+UBSan and the library's asserts watch the "
                   "same executions",
